@@ -2,6 +2,7 @@ import Driver.FlowMon
 import OidcModel.Model.Flow
 import Driver.C07Wire
 import OidcModel.Model.FlowC04X
+import OidcModel.Model.FlowC04SC
 import Driver.C07Fault
 open Kv Drv
 
@@ -11,7 +12,17 @@ structure ModSt where
   st : _root_.Flow.St := {}
   router : _root_.Flow.Router := .provider
   pending : String := ""      -- deep3-C04: the model's answer to the second request of a concurrent pair (computed at the first line)
+  sc : Option (Claims → Go.R Unit) := none   -- round 4b (C04): the custom subject check of the provider's JWTProfileVerifier (none: SubjectIsIssuer)
   deriving Inhabited
+
+/-- round 4b (C04): the subject check the reset line describes (c04sc.go `c04scPolicy.check`) -/
+def scOfLine (l : Line) : Option (Claims → Go.R Unit) :=
+  match str l "sc" with
+  | "all" => some fun c => if c.sub == "" then .error "sub missing" else .ok ()
+  | "table" =>
+    let tb := list l "sc.table"
+    some fun c => if c.sub == c.iss || tb.contains (c.iss ++ ">" ++ c.sub) then .ok () else .error "delegation not allowed for this pair"
+  | _ => none
 
 structure FullSt where
   mon : MonSt := {}
@@ -71,7 +82,7 @@ def modelStep (m : ModSt) (l : Line) (now : Int) : ModSt × String :=
     let p : Provider := { store := { clients := parseClients l, is_ClientCredentialsStorage := true }, issuer := str l "issuer",
                           postSupported := bool l "post", pkjwtSupported := bool l "pkjwt", refreshSupported := bool l "refresh",
                           jwtMaxAgeIAT := 3600 * Go.second, jwtOffset := Go.second }
-    ({ st := { p := p, hintKeys := if has l "ks.n" then parseKeySet l "ks." else {} }, router := rt }, "reset")
+    ({ st := { p := p, hintKeys := if has l "ks.n" then parseKeySet l "ks." else {} }, router := rt, sc := scOfLine l }, "reset")
   | "authorize" =>
     let ch : Option CodeChallenge := if has l "chal.m" then some { Challenge := str l "chal.c", Method := str l "chal.m" } else none
     let a : AuthReq := { clientID := str l "client", redirectURI := str l "redirect", scopes := list l "scopes",
@@ -106,6 +117,10 @@ def modelStep (m : ModSt) (l : Line) (now : Int) : ModSt × String :=
       let (s, oA, oB, order) := FlowX.stepConc now m.st m.router (bool l "conc.strict") (accessReq l) false (accessReq2 l) false sched
       -- this line is the request that finished first in reality: the model must agree on who finishes first
       ({ m with st := s, pending := showOut oB }, showOut oA ++ (if order.head? == some true then "" else "!order"))
+    else if m.sc.isSome && !bool l "fault.delete" then
+      -- round 4b: the provider's verifier carries a custom subject check: the regenerated GenSC.* decide (Model/FlowC04SC.lean)
+      let (s, o) := FlowSC.stepExchange now m.st m.sc m.router (accessReq l) (str l "auth" == "assertion")
+      ({ m with st := s }, showOut o)
     else
     let op := if bool l "fault.delete" then _root_.Flow.Op.exchangeDeleteFails m.router (accessReq l) (str l "auth" == "assertion")
               else .exchange m.router (accessReq l) (str l "auth" == "assertion")
